@@ -418,6 +418,21 @@ def gen_C12(tier, seed):
                     b = parts_of(to_scale(i + d, t2)) + (t2,)
                     out.append(f"ecmp {p3(a)} {p3(b)}")
                     out.append(f"eeq {p3(a)} {p3(b)}")
+    # a UTC epoch in the last UTC second before an insertion against another scale's epoch exactly one second later, inside the
+    # leap second: TAI -> UTC maps both instants to the same UTC count, so anything decided in the UTC operand's scale sees a tie
+    prev = 0
+    for ts_, dl in zip(LEAP_TS, LEAP_DELTA):
+        L = (ts_ + prev) * SEC      # the insertion starts here on the TAI axis
+        prev = dl
+        for frac in (0, 1, 500000000, SEC - 1):
+            x = L - SEC + frac
+            for t2 in (0, 1, 5, 6, 7, 8):
+                for dy in (SEC, SEC - 1, SEC + 1, 2 * SEC):
+                    a = parts_of(to_scale(x, 4)) + (4,)
+                    b = parts_of(to_scale(x + dy, t2)) + (t2,)
+                    for f in ("ecmp", "eeq", "emin", "emax"):
+                        out.append(f"{f} {p3(a)} {p3(b)}")
+                        out.append(f"{f} {p3(b)} {p3(a)}")
     # symmetric about the reference in the same scale (the old Duration == quirk)
     for t in range(9):
         for d in (1, 1000, SEC, NPC - 1):
